@@ -131,6 +131,7 @@ def dispatch (op : String) (args : List Str) : String :=
   | "accept", [s] => opAccept "cur" s
   | "accept", [w, s] => opAccept (String.ofList w) s
   | "print", [s] => opPrint s
+  | "pipeline", [s] => opAccept "cur" s
   | "roundtrip", [s] => opRoundtrip s
   | "chardata", k :: c :: ops => chardata (String.ofList k) c ops
   | _, _ => "bad-op"
